@@ -50,7 +50,7 @@ def run_impl(lines):
         if m in (20, 120, 220, 221, 222, 320):
             layp.append(i)
             continue
-        groups["ir" if m == 1 else "fwd" if m == 201 else "grp" if m in (4, 204) else "rt" if (10 <= m <= 19 or m == 21) else "prog"].append(i)
+        groups["ir" if m == 1 else "fwd" if m == 201 else "grp" if m in (4, 204) else "rt" if (10 <= m <= 19 or m in (21, 110, 119, 210)) else "prog"].append(i)
     if layp:
         res = layout_probe([lines[i] for i in layp])
         for j, i in enumerate(layp):
@@ -218,7 +218,7 @@ def grp_cases(rng, tier, mid=4):
 
 # ------------------------------------------------------------------------------------------ behavioural
 REF_OPS = [[0, 5, -3], [6, 2], [6, -1], [6, 5], [7, 4], [7, 3], [7, -1], [8, 200], [8, 7], [9, 7], [10, 0], [10, 1], [10, 3], [10, 2, 1, 5], [10, 1, 2, 5], [10, 3, 1, 8], [10, 0, 1, 4], [10, 9, 2, 3], [10, 2, 0, 6], [10, 1, 1, 0], [12, 255, 70000, -5], [13], [14],
-           [16, 5], [16, -2], [18, 4], [18, -9], [19, 0], [19, 1], [19, 13], [19, -7], [19, 65535], [20, 3], [20, -1], [21, 9], [26, 0], [26, 1], [26, 5], [26, 13], [26, 65536], [26, -7], [27, 0], [27, -1], [27, -22], [27, 70000], [27, 2147483647], [27, -2147483648], [28, 4], [28, -21], [28, 70001],
+           [16, 5], [16, -2], [18, 4], [18, -9], [19, 0], [19, 1], [19, 13], [19, -7], [19, 65535], [20, 3], [20, -1], [21, 9], [31, 97, 0], [31, 955, 1], [31, 8364, 0], [31, 128512, 0], [31, 255, 1], [31, 1114111, 1], [32, -5, 77, -3], [32, 2 ** 62, -1, 127], [33, 1078530011, 4614253070214989087], [33, 2143289344, 0], [34, 300, 8364], [34, 65535, 97], [26, 0], [26, 1], [26, 5], [26, 13], [26, 65536], [26, -7], [27, 0], [27, -1], [27, -22], [27, 70000], [27, 2147483647], [27, -2147483648], [28, 4], [28, -21], [28, 70001],
            [22, 4], [22, 7], [23, 21], [24], [25, 2], [25, 0]]
 MUT_OPS = [[1, 5], [1, 0], [1, 24], [2, 3], [2, 0], [3, 4], [3, 0], [4, 6], [4, 0], [5, 0], [5, 1], [5, 2], [5, 3], [5, 4], [5, 5], [5, 6], [5, 7], [5, 8], [11, 0], [11, 4], [15], [17, 2], [17, 3], [29, 0, 5], [29, 1, 5], [29, 2, 8], [29, 1, 0], [30, 0], [30, 1], [30, 2], [29, 2, 3], [30, 1]]
 
